@@ -82,6 +82,7 @@ impl Scenario for Full {
             "setctrl_between_two_bits_of_a_frame",
             "add_byte_between_two_bits_of_a_frame",
             "ingestion_path_switched_mid_run",
+            "sixteen_bit_word_through_add_word",
             "obs_three_or_more_events_queued",
             "obs_schedule_independence_checked",
             "obs_reinterleaving_moved_a_consumer_action",
@@ -152,17 +153,39 @@ impl Scenario for Full {
                                 _ => rng.below(2048) as u16,
                             };
                             let via = if rng.bool() { Via::Bit } else { Via::Word };
-                            for _ in 0..(if rng.chance(1, 2) { rng.range(2, 6) } else { 1 }) {
+                            let n = if rng.chance(1, 1500) {
+                                rng.range(65_530, 65_600) // unplugged for a minute: past the 16-bit mark
+                            } else if rng.chance(1, 2) {
+                                rng.range(2, 6)
+                            } else {
+                                1
+                            };
+                            for _ in 0..n {
                                 extra_after.push(Op::Noise { word: w, via });
                             }
                         }
                         7 => extra_after.push(Op::Edge { bit: rng.bool() }),
-                        8 => extra_after.push(match rng.below(4) {
-                            // keyboard power-cycles (BAT AA) or overruns (00): as a byte, or as a frame
-                            0 => Op::Byte { b: if rng.bool() { 0xAA } else { 0x00 } },
-                            1 => Op::Frame { sent: if rng.bool() { 0xAA } else { 0x00 }, fault: WFault::None, via: if rng.bool() { Via::Bit } else { Via::Word } },
-                            _ => Op::Byte { b: rng.byte() },
-                        }),
+                        8 => match rng.below(5) {
+                            // protocol traffic that is not key data (power-cycle AA, overrun 00, FA/FE,
+                            // reset and identify replies), as bytes or as frames
+                            0 | 1 => {
+                                let seq: &[u8] = *rng.pick(&[&[0xAA][..], &[0x00], &[0xFA], &[0xFE], &[0xFA, 0xAA], &[0xAA, 0xFA, 0xAB, 0x83], &[0xFA, 0xAB, 0x83], &[0xEE], &[0xFC]]);
+                                let as_frames = rng.bool();
+                                let via = if rng.bool() { Via::Bit } else { Via::Word };
+                                for pb in seq {
+                                    extra_after.push(if as_frames { Op::Frame { sent: *pb, fault: WFault::None, via } } else { Op::Byte { b: *pb } });
+                                }
+                            }
+                            // a host that hands add_word a raw 16-bit capture (idle-high line above
+                            // the frame, all ones, anything)
+                            2 => extra_after.push(Op::Word16 { w: match rng.below(4) {
+                                0 => 0xFFFF,
+                                1 => 0xF800 | crate::model::bits_word(&crate::model::encode_frame(b)),
+                                2 => 0x0800 | crate::model::bits_word(&crate::model::encode_frame(b)),
+                                _ => (rng.next() >> 48) as u16,
+                            } }),
+                            _ => extra_after.push(Op::Byte { b: rng.byte() }),
+                        },
                         9 => extra_after.push(Op::Ev { key: rng.below(NKEYS as u64) as u8, st: rng.below(3) as u8 }),
                         10 => extra_after.push(Op::Clear),
                         _ => {
@@ -281,7 +304,7 @@ impl Scenario for Full {
         fn kind8(op: &Op) -> usize {
             match op {
                 Op::Frame { via: Via::Bit, .. } | Op::Edge { .. } | Op::Noise { via: Via::Bit, .. } => 0,
-                Op::Frame { via: Via::Word, .. } | Op::Noise { via: Via::Word, .. } => 1,
+                Op::Frame { via: Via::Word, .. } | Op::Noise { via: Via::Word, .. } | Op::Word16 { .. } => 1,
                 Op::Byte { .. } => 2,
                 Op::Pev => 3,
                 Op::Ev { .. } => 4,
@@ -408,6 +431,30 @@ impl Scenario for Full {
                         }
                     }
                 }
+                Op::Word16 { w } => {
+                    // any 16-bit value: the combined object and the bare frame decoder are the
+                    // same code, so they must agree outside the documented precondition too
+                    input_ops.push(top.op);
+                    let rk = Res::of(&kb.add_word(w));
+                    let rm = match mir.ps2.add_word(w) {
+                        Err(e) => Res::Err(e),
+                        Ok(b) => {
+                            feed_byte_models(b, &mut m2, &mut m1);
+                            Res::of(&mir.set.advance_state(b))
+                        }
+                    };
+                    env.cov.api_calls += 3;
+                    env.cov.evaluations += 1;
+                    env.cov.probe("sixteen_bit_word_through_add_word");
+                    h.mix(rk.hash());
+                    if rk != rm {
+                        fail!('ops, i, "mirror-of-three-stages", "Keyboard::add_word({:04X}) returned {}, the hand-wired stages return {}", w, rk.show(), rm.show());
+                    }
+                    if let Res::Ev(k, s) = rk {
+                        queue.push_back((produced.len(), KeyEvent::new(k, s)));
+                        produced.push(KeyEvent::new(k, s));
+                    }
+                }
                 Op::Byte { b } => {
                     input_ops.push(top.op);
                     if pend != 0 {
@@ -528,6 +575,7 @@ impl Scenario for Full {
             let mut rng = Rng::new(cfg.seed2 ^ 0x5EED_5EED);
             let mut kb2 = KbAny::new(cfg.set, DynLayout::object(lay), hc(cfg.map));
             let mut produced2: Vec<KeyEvent> = Vec::new();
+            let mut checked2 = 0usize;
             let mut ii = 0usize;
             let mut ci = 0usize;
             let mut moved = false;
@@ -617,15 +665,22 @@ impl Scenario for Full {
                             push(kb2.add_byte(b), &mut produced2);
                             env.cov.api_calls += 1;
                         }
+                        Op::Word16 { w } => {
+                            push(kb2.add_word(w), &mut produced2);
+                            env.cov.api_calls += 1;
+                        }
                         Op::Clear => {
                             kb2.clear();
                             env.cov.api_calls += 1;
                         }
                         _ => {}
                     }
-                    // the key-event history must be the same, event by event
+                    // the key-event history must be the same, event by event (only the events this
+                    // op added need comparing)
                     let n = produced2.len().min(produced.len());
-                    if produced2[..n] != produced[..n] || produced2.len() > produced.len() {
+                    let from = checked2.min(n);
+                    checked2 = n;
+                    if produced2[from..n] != produced[from..n] || produced2.len() > produced.len() {
                         violation = Some(Violation {
                             oracle: "schedule-independence".into(),
                             op_index: last_op,
@@ -753,13 +808,24 @@ impl Scenario for Chaos {
             // a stuck line / a flood of identical replies: the same byte, bit or event hundreds
             // of times in a row (counters must not run away)
             if rng.chance(1, 400) {
-                let reps = if rng.bool() { rng.range(250, 262) } else { rng.range(258, 600) };
+                let reps = if rng.chance(1, 60) {
+                    rng.range(65_530, 65_600) // past the 16-bit mark
+                } else if rng.bool() {
+                    rng.range(250, 262)
+                } else {
+                    rng.range(258, 600)
+                };
                 let flood = match op {
                     Op::Byte { .. } => Op::Byte { b: *rng.pick(&[0xFFu8, 0xFE, 0xFA, 0xEE, 0x00, 0xAA, 0x1C, 0xF0, 0xE0]) },
                     Op::Ev { key, .. } => Op::Ev { key, st: 1 },
+                    Op::Noise { .. } | Op::Word16 { .. } => Op::Noise { word: if rng.bool() { 0x7FF } else { 0x000 }, via: Via::Word },
                     other => other,
                 };
                 for _ in 0..reps {
+                    if let Op::Clear = flood {
+                        // a timeout that discards a partial frame, over and over
+                        ops.push(TOp { t, op: Op::Edge { bit: rng.bool() } });
+                    }
                     ops.push(TOp { t, op: flood });
                 }
             }
